@@ -132,7 +132,7 @@ func newWorldCompat(engine string, cacheSize int, compat bool) *world {
 }
 
 func (w *world) close() {
-	vatomic.StoreHook, vatomic.AddHook = nil, nil
+	vatomic.StoreHook, vatomic.AddHook, vatomic.StoreU64Hook = nil, nil, nil
 	w.cleanup()
 }
 
